@@ -572,6 +572,7 @@ func Run(c *evid.Ctx) {
 	}
 	r.programs(pl)
 	r.netPath(2)
+	r.statics()
 	c.Count("evaluations", r.evals)
 	c.Count("distinct_nontrivial", r.nontriv)
 	c.Cov["rule"] = "one evaluation = one write program (1..n operations) encoded by golib, compared byte for byte with refenc, Size() checked after every write, read back in order with Available() checked after every read; non-trivial = value other than zero/empty/nil, or a program of two or more operations; values are enumerated without repetition"
